@@ -72,8 +72,20 @@ CREATABLE = [a for a in ADDRS if has_device_class(a)]
 CR_WORD = ",".join(map(str, CREATABLE)) or "-"
 
 
-def frame_bytes(idx, addr):
-    return fg.mk(PASSWORD, b"\x04" + b"%04d" % idx, rcpt=86, sender=addr)
+def frame_bytes(content, addr):
+    return fg.mk(PASSWORD, b"\x04" + b"%04d" % content, rcpt=86, sender=addr)
+
+
+def same_patterns(nframes, rng=None):
+    """which frames repeat their predecessor from the same address byte for byte (index = position in feed order)"""
+    pats = [[1] * nframes, [1] * min(nframes, 3) + [0] * max(0, nframes - 3), [0] + [1] * (nframes - 1), [i % 2 for i in range(1, nframes + 1)]]
+    if rng is not None:
+        pats.append([int(rng.random() < 0.6) for _ in range(nframes)])
+    out = []
+    for p in pats:
+        if any(p[1:]) and p not in out:
+            out.append(p)
+    return out
 
 
 class Canon:
@@ -199,6 +211,32 @@ def run_case(case):
             await proto.wait_for(name)
             return proto.get_nowait(name) if case.get("route") == "wait_for" else getattr(proto, name)
         fed = []      # address of every frame fed
+        same = list(case.get("same") or [])   # same[i] = frame i is a byte-for-byte repeat of the previous frame from its address
+        content = []  # content id of every frame fed (= index of the first frame of its run of identical frames)
+        last_content = {}
+
+        def next_frame(a):
+            i = len(fed)
+            c = last_content[a] if i < len(same) and same[i] and a in last_content else i
+            last_content[a] = c
+            fed.append(a)
+            content.append(c)
+            return frame_bytes(c, a)
+
+        def handled_frames():
+            # observed at the device's event: the k-th time a content is delivered stands for the k-th frame fed with
+            # that content (one delivery too many shows as a frame handled twice, one too few as a frame not handled)
+            seen, out = {}, []
+            for v, d in handled:
+                if isinstance(v, str) and v.isdigit() and int(v) in content:
+                    c = int(v)
+                    idx = [i for i, x in enumerate(content) if x == c]
+                    k = seen.get(c, 0)
+                    seen[c] = k + 1
+                    out.append((idx[min(k, len(idx) - 1)], canon(d)))
+                else:
+                    out.append((-1, canon(d)))
+            return out
         asked = []    # address of every get()
         effective, snaps = [], []
 
@@ -216,7 +254,7 @@ def run_case(case):
                 setups=len(setups),
                 published=pub,
                 dispatched=[(a, canon(d)) for a, d in dispatched],
-                handled=[(int(v), canon(d)) if isinstance(v, str) and v.isdigit() else (-1, canon(d)) for v, d in handled],
+                handled=handled_frames(),
                 gets=[(canon(t.result()) if t.done() and not t.cancelled() and t.exception() is None else
                        ("w" if not t.done() else "x")) for t in gets],
             )
@@ -225,8 +263,7 @@ def run_case(case):
             e = parse_ev(ev)
             if e[0] == "F":
                 _, a, m = e
-                conn["reader"].feed_data(b"".join(frame_bytes(len(fed) + i, a) for i in range(m)))
-                fed.extend([a] * m)
+                conn["reader"].feed_data(b"".join([next_frame(a) for _ in range(m)]))
             elif e[0] == "C":
                 conn["reader"].feed_eof()
             elif e[0] == "T":
@@ -263,7 +300,7 @@ def run_case(case):
         extra = dict(
             unfinished=proto._queues.read._unfinished_tasks,
             consumers_alive=sum(1 for t in proto.tasks if t.get_name().startswith("frame_consumer") and not t.done()),
-            fa=fed, ga=asked, timed_gets_ok=all(timed), route_bad=sorted(set(route_bad)),
+            fa=fed, ga=asked, content=content, timed_gets_ok=all(timed), route_bad=sorted(set(route_bad)),
             once=[(a, [canon(d) for d in v]) for a, v in sorted(once_seen.items())],
             kept={a: proto.data[name_of(a)].data.get("password") for a in ADDRS if name_of(a) in proto.data},
             connections=conn["established"], losses=conn["lost"],
@@ -381,6 +418,18 @@ def parse_case(line):
     return dict(variant(sum(map(ord, line))), consumers=int(w[0]), cbsusp=int(w[1]), events=w[2:])
 
 
+def fed_first_identical(extra):
+    for a in set(extra["fa"]):
+        idx = [i for i, x in enumerate(extra["fa"]) if x == a]
+        if len(idx) >= 2 and extra["content"][idx[0]] == extra["content"][idx[1]]:
+            return True
+    return False
+
+
+def nframes_of(ev):
+    return sum(parse_ev(e)[2] for e in ev if e[0] == "F")
+
+
 def evaluate(res, cases):
     runs = [run_case(c) for c in cases]
     model = driver_batch(f"c10 1 {CR_WORD} " + " ".join(eff) for eff, _, _ in runs)
@@ -390,10 +439,17 @@ def evaluate(res, cases):
     for case, (eff, snaps, extra), m, v in zip(cases, runs, model, verdicts):
         inp = dict(consumers=case["consumers"], cbsusp=case.get("cbsusp", 0), route=case.get("route", "get"), conn=bool(case.get("conn")),
                    events=eff, requested=case["events"])
+        if case.get("same"):
+            inp["same"] = list(case["same"])
         obs = [show_snap(o) for o in snaps]
         nframes = len(extra["fa"])
         nontrivial = nframes >= 2 or bool(extra["ga"])
-        res.case((case["consumers"], case.get("cbsusp", 0), case.get("route", "get"), bool(case.get("conn")), tuple(eff)), nontrivial)
+        res.case((case["consumers"], case.get("cbsusp", 0), case.get("route", "get"), bool(case.get("conn")), tuple(eff),
+                  tuple(extra["content"]) if case.get("same") else ()), nontrivial)
+        reps = len(extra["content"]) - len(set(extra["content"]))
+        res.count(f"byte-identical-repeats:{reps}")
+        if reps and fed_first_identical(extra):
+            res.count("first-frames-of-an-address-identical")
         res.count(f"frames:{nframes}")
         res.count(f"consumers:{case['consumers']}")
         res.count(f"gets:{len(extra['ga'])}")
@@ -442,8 +498,8 @@ def evaluate(res, cases):
         if snaps and snaps[-1]["held"] == 0:
             for a, pw in extra["kept"].items():
                 idx = [f for f, x in enumerate(extra["fa"]) if x == int(a)]
-                if idx and pw != "%04d" % idx[-1]:
-                    res.fail("spec", inp, "%04d" % idx[-1], pw, "the entry does not hold the data of the last frame of its address "
+                if idx and pw != "%04d" % extra["content"][idx[-1]]:
+                    res.fail("spec", inp, "%04d" % extra["content"][idx[-1]], pw, "the entry does not hold the data of the last frame of its address "
                              "(data kept across reconnects, frames not split between objects)")
         res.count(f"route:{case.get('route', 'get')}")
         res.count("via:" + ("Connection._reconnect" if case.get("conn") else "on_connection_lost callback"))
@@ -459,7 +515,7 @@ def run(ctx):
     res = Result("C10")
     res.rule = ("schedule = arrangement of feed groups (1..4 frames in total, any grouping; one address, or several addresses "
                 "69 / 81 / 86 = no device class), explicit releases of the device-class imports (the rest released at the end) and "
-                "get(<name>) calls, reconnects (connection lost and re-established) at every position of the timeline; x consumers_count 1..5 x the way the user asks (get / wait_for + get_nowait / attribute access) x the reconnect route (Connection._reconnect of a Connection object owning the protocol / a plain on_connection_lost callback) x protocol-level callback suspending or not. distinct = (consumers, cbsusp, "
+                "get(<name>) calls, reconnects (connection lost and re-established) at every position of the timeline; x consumers_count 1..5 x the way the user asks (get / wait_for + get_nowait / attribute access) x the reconnect route (Connection._reconnect of a Connection object owning the protocol / a plain on_connection_lost callback) x protocol-level callback suspending or not x frame contents: all distinct, or byte-identical repeats of the previous frame of the address (runs of 2..4, among the first frames and later), delivery observed at the device's event subscribers. distinct = (consumers, cbsusp, "
                 "effective event list); non-trivial = at least two frames or a get() in the schedule")
     cases = [parse_case(ln) for _, ln in load_corpus("C10")]
     if ctx["tier"] == "thorough":
@@ -485,6 +541,18 @@ def run(ctx):
             if any(x[0] == "G" for x in ev):
                 for ev2 in with_timed_gets(ev):
                     cases.append(dict(variant(i), events=ev2))
+        # byte-identical repeats: every one-address schedule x every repeat pattern; random mixed schedules
+        for i, ev in enumerate(all_schedules(4, 1)):
+            k = nframes_of(ev)
+            if k >= 2:
+                for pat in same_patterns(k):
+                    cases.append(dict(variant(i), events=ev, same=pat))
+        for _ in range(1500):
+            ev = random_schedule(rng, multi=rng.random() < 0.6)
+            if rng.random() < 0.4:
+                ev.insert(rng.randint(0, len(ev)), "C")
+            ev.append(f"F{ECOMAX}:{rng.randint(2, 4)}")
+            cases.append(dict(random_variant(rng), events=ev, same=[int(rng.random() < 0.7) for _ in range(nframes_of(ev))]))
         res.exhaustive = True
         res.extra["exhaustive_over"] = ("one address: all arrangements of feed groups of 1..4 frames x release position x 0..2 get() "
                                         "positions x consumers 1..3; several addresses: all sequences of 1..3 frames over {69,81,86} x "
@@ -513,6 +581,16 @@ def run(ctx):
         for ev in [e for e in short if any(x[0] == "G" for x in e)][:40]:   # an impatient get() at every position, next to a patient one
             for ev2 in with_timed_gets(ev):
                 cases.append(dict(random_variant(rng), events=ev2))
+        # byte-identical repeats among the first frames (and later ones): the same schedules, other frame contents
+        multi = [e for e in pool if nframes_of(e) >= 2]
+        for ev in multi[:260]:
+            cases.append(dict(random_variant(rng), events=ev, same=rng.choice(same_patterns(nframes_of(ev), rng))))
+        for _ in range(120):
+            ev = random_schedule(rng, multi=rng.random() < 0.6)
+            if rng.random() < 0.4:
+                ev.insert(rng.randint(0, len(ev)), "C")
+            ev.append(f"F{ECOMAX}:{rng.randint(2, 4)}")                # … and a burst of repeats after the entry exists
+            cases.append(dict(random_variant(rng), events=ev, same=[int(rng.random() < 0.7) for _ in range(nframes_of(ev))]))
     if ctx.get("max_cases"):
         cases = cases[:ctx["max_cases"]]
     evaluate(res, cases)
@@ -525,5 +603,5 @@ def replay(ctx):
     res = Result("C10")
     res.rule = "replay of one recorded schedule"
     evaluate(res, [dict(consumers=inp["consumers"], cbsusp=inp.get("cbsusp", 0), route=inp.get("route", "get"), conn=bool(inp.get("conn")),
-                        events=inp.get("requested") or inp["events"])])
+                        events=inp.get("requested") or inp["events"], same=inp.get("same"))])
     return res
